@@ -394,8 +394,8 @@ func TestC12_LpmKeys(t *testing.T) {
 			if rapid.IntRange(0, 4).Draw(t, "big") == 0 {
 				maxN = 30
 			}
-			if vkThorough() && rapid.IntRange(0, 49).Draw(t, "huge") == 0 {
-				maxN = 400
+			if vkThorough() && rapid.IntRange(0, 99).Draw(t, "huge") == 0 {
+				maxN = 300
 			}
 			set = g.set(t, maxN)
 			probes, nb = g.probes(t, set, rapid.IntRange(4, 12).Draw(t, "nrand"))
